@@ -27,10 +27,9 @@ WAll(v, lines, i) == IF i > Len(lines) THEN v ELSE WAll(W(v, lines[i]), lines, i
 SegLines(sg) == LET cs == SegLineCodes(sg, Valid3_999) IN
                 [k \in 1..Len(cs) |-> SegOf("IK3", <<sg.id, ToString(sg.pos), sg.ls, cs[k]>>)]
 EleLines(el) == LET ok == SelectSeq(el.errs, LAMBDA er : er[1] \in Valid4_999) IN
-                [k \in 1..Len(ok) |-> [id |-> "IK4", e |-> <<PosEl(el), S1(el.ref), S1(ok[k][1])>> \o (IF ok[k][2] # "" THEN <<SetVal(ok[k][2])>> ELSE <<>>)]]
+                [k \in 1..Len(ok) |-> [id |-> "IK4", e |-> <<PosEl(el), S1(el.ref), S1(ok[k][1])>> \o (IF ok[k][2] # "" THEN <<Echo(ok[k][2], {TERM, ELE, SUB, REP})>> ELSE <<>>)]]
 VisitSeg(v, sg) == WAll(WAll(v, SegLines(sg), 1), Flatten([k \in 1..Len(sg.eles) |-> EleLines(sg.eles[k])]), 1)
-StPost(v, st) == IF StEleBad(st) THEN [v EXCEPT !.crashed = TRUE]
-                 ELSE W(v, SegOf("IK5", <<st.ack>> \o Take(StCodes(st), 5)))
+StPost(v, st) == W(v, SegOf("IK5", <<st.ack>> \o Take(StCodes(st), 5)))
 RECURSIVE VisitSegs(_, _, _)
 VisitSegs(v, segs, i) == IF i > Len(segs) \/ v.crashed THEN v ELSE VisitSegs(VisitSeg(v, segs[i]), segs, i + 1)
 VisitSt(v, st) == LET v1 == StPre(v, st) IN IF v1.crashed THEN v1 ELSE StPost(VisitSegs(v1, st.segs, 1), st)
@@ -47,8 +46,7 @@ VisitIsas(v, ii, i) == IF i > Len(ii) \/ v.crashed THEN v ELSE VisitIsas(VisitGr
 RootPost(v, t) == IF v.crashed THEN v ELSE
                   LET v1 == W(v, SegOf("GE", <<"", GCN>>))
                       v2 == IF t.nodes[t.isa].x = "1" THEN W(v1, SegOf("TA1", <<t.nodes[t.isa].id, DATE, TIME, "#ACK", "#NOTE">>)) ELSE v1
-                  IN IF t.nodes[t.isa].x = "1" /\ IsaEleBad(PIsa(t, t.isa)) THEN [v1 EXCEPT !.crashed = TRUE] ELSE
-                     W(v2, SegOf("IEA", <<>>))
+                  IN W(v2, SegOf("IEA", <<>>))
 Visit999(t) == RootPost(VisitIsas(RootPre(V0, t), Nested(t), 1), t)
 
 (* the writer: envelope records go through Writer!WWrite, the content of non-trailers is carried along in order *)
